@@ -16,7 +16,7 @@ import json, os, subprocess, sys, tempfile, shutil
 
 ROOT = os.path.dirname(os.path.dirname(os.path.abspath(__file__)))
 BIN = os.path.join(ROOT, "sim/target/release/acts-sim")
-ALL = ["C01", "C02", "C03", "C04", "C05", "C05b", "C06", "C07", "C08", "C09", "C09b", "C10", "C11", "C12", "C13", "C13b", "C15", "C16", "C17", "C18", "C19"]
+ALL = ["C01", "C02", "C03", "C04", "C05", "C05b", "C06", "C07", "C08", "C09", "C09b", "C10", "C11", "C12", "C13", "C13b", "C15", "C16", "C17", "C18", "C18b", "C19"]
 
 
 def run_split(check, n, workers, tmp, tag, env_extra):
